@@ -347,5 +347,38 @@ pub fn run(opts: &Opts) -> Report {
             Err(m) => rep.fail("panic", "annotation-without-text/panic", vec!["a store with a dataset only; an annotation on the dataset; related_text(overlaps)".into()], "nothing", &m),
         }
     }
+    // a reference drawn from another resource: the same text and the same selections in two resources; a search in one
+    // with a reference from the other finds nothing (selections of different resources stand in no relation)
+    {
+        let text = "ab cd ef gh";
+        let known: [R; 6] = [(0, 2), (3, 5), (0, 5), (6, 8), (3, 8), (9, 11)];
+        let built = guarded(std::panic::AssertUnwindSafe(|| -> Result<AnnotationStore, StamError> {
+            let mut st = new_store();
+            st.add_resource(TextResourceBuilder::new().with_id("r").with_text(text))?;
+            st.add_resource(TextResourceBuilder::new().with_id("q").with_text(text))?;
+            // (the handles differ between the two resources: q gets its selections in reverse)
+            for r in known.iter() { st.annotate(AnnotationBuilder::new().with_target(SelectorBuilder::textselector("r", Offset::simple(r.0, r.1))))?; }
+            for r in known.iter().rev() { st.annotate(AnnotationBuilder::new().with_target(SelectorBuilder::textselector("q", Offset::simple(r.0, r.1))))?; }
+            Ok(st)
+        }));
+        if let Ok(Ok(st)) = built {
+            for op in &ops {
+                if op.ws { continue; }
+                for refs in [vec![(3usize, 5usize)], vec![(0, 5)], vec![(0, 2), (6, 8)], vec![(4, 7)]] {
+                    for (here, there) in [("r", "q"), ("q", "r")] {
+                        rep.count("reference-from-another-resource");
+                        let got = guarded(std::panic::AssertUnwindSafe(|| {
+                            let (a, b) = (st.resource(here).unwrap(), st.resource(there).unwrap());
+                            let tset: TextSelectionSet = refs.iter().map(|r| b.textselection(&Offset::simple(r.0, r.1)).expect("ref")).collect();
+                            a.related_text(op.to_op(), tset).map(|t| (t.begin(), t.end())).collect::<Vec<R>>()
+                        }));
+                        if got != Ok(vec![]) {
+                            rep.fail(if got.is_err() { "panic" } else { "oracle" }, &format!("reference-from-another-resource/{}", op.sig()), vec![format!("two resources with the text {:?} and the selections {:?}; search in {} with the reference {:?} of {}; operator {}", text, known, here, refs, there, op.proto())], "nothing", &format!("{:?}", got));
+                        }
+                    }
+                }
+            }
+        } else { rep.fail("oracle", "reference-from-another-resource/build", vec![], "a store", "failed"); }
+    }
     rep
 }
